@@ -2486,6 +2486,12 @@ func (self *TextServerProtocol) ProcessLockCommand(lockCommand *protocol.LockCom
 }
 
 func (self *TextServerProtocol) ProcessLockResultCommand(lockCommand *protocol.LockCommand, result uint8, lcount uint16, lrcount uint8, data []byte) error {
+	if lockCommand.RequestId != self.lockRequestId {
+		// not the request the command handler is waiting for (a PUSH, which does not wait for its
+		// result, or a pushed request served later by this connection's own unlock): left in
+		// lockWaiter it would answer the connection's next command
+		return nil
+	}
 	self.lockRequestId[0], self.lockRequestId[1], self.lockRequestId[2], self.lockRequestId[3], self.lockRequestId[4], self.lockRequestId[5], self.lockRequestId[6], self.lockRequestId[7],
 		self.lockRequestId[8], self.lockRequestId[9], self.lockRequestId[10], self.lockRequestId[11], self.lockRequestId[12], self.lockRequestId[13], self.lockRequestId[14], self.lockRequestId[15] =
 		0, 0, 0, 0, 0, 0, 0, 0,
